@@ -118,6 +118,38 @@ def nonfinite(c):
     return c[0] == "x" and "Undefined" in str(c[1])
 
 
+def neg_int_power(e, k):
+    """Does the program contain a power x^y whose exponent holds a negative INTEGER while the base holds integers only?
+    (operand values of the sub-expressions are computed by the numpy interpreter, which has a and b bound)"""
+    def ints_only(c, pred):
+        if c[0] == "l":
+            return any(ints_only(x, pred) for x in c[1]) if pred == "anyneg" else all(ints_only(x, pred) for x in c[1])
+        if pred == "anyneg":
+            return c[0] == "i" and c[1] < 0
+        return c[0] == "i"
+    found = False
+    if e["k"] == "dy" and e["op"] == "^":
+        try:
+            ex = c8(k(kgeval.render_ast(e["b"])))
+            ba = c8(k(kgeval.render_ast(e["a"])))
+            found = ints_only(ex, "anyneg") and ints_only(ba, "all")
+        except BaseException:   # noqa
+            found = False
+    return found or any(isinstance(e.get(key), dict) and neg_int_power(e[key], k) for key in ("a", "b"))
+
+
+def truncated(np_c, t_c):
+    """torch holds integers where numpy holds reals, each the truncation of the numpy element (integer power with a negative exponent)"""
+    if np_c[0] == "l" or t_c[0] == "l":
+        return np_c[0] == t_c[0] and len(np_c[1]) == len(t_c[1]) and all(truncated(x, y) for x, y in zip(np_c[1], t_c[1]))
+    if np_c[0] in ("i", "r") and t_c[0] == "i":
+        try:
+            return int(np_c[1]) == int(t_c[1])
+        except (OverflowError, ValueError):
+            return False
+    return False
+
+
 def spec_c8(v):
     t = v["t"]
     if t == "i":
@@ -203,6 +235,7 @@ def run(tier, seed):
         ops = sorted(ops_of(c["ast"]))
         case = {"clause": bad, "src": src, "cls": c["cls"], "ops": ops, "top": top_of(c["ast"]),
                 "nonfinite": any(nonfinite(got[be]) for be in got),
+                "negative_integer_power": neg_int_power(c["ast"], K["numpy"]),
                 "what": f"a::{canon.render(c['env']['a'])};b::{canon.render(c['env']['b'])};{src}: numpy gives "
                         f"{show(got['numpy']) if got['numpy'][0] != 'exc' else got['numpy'][1]}, torch gives "
                         f"{show(got['torch']) if got['torch'][0] != 'exc' else got['torch'][1]} [{bad}{culprit}]"
@@ -269,6 +302,8 @@ def matcher(f, case):
     if "classes" in m and case["cls"] not in m["classes"]:
         return False
     if "nonfinite" in m and bool(case.get("nonfinite")) != bool(m["nonfinite"]):
+        return False
+    if "negative_integer_power" in m and bool(case.get("negative_integer_power")) != bool(m["negative_integer_power"]):
         return False
     return True
 
